@@ -32,7 +32,7 @@ CLAIMED = {
          "k <= 64 mostly, occasionally 1000 and 10^5; n <= 6*10^4."),
  "C04": ("exploration", "seeded simulation of the compaction schedule (backlog knob 0..n+1, reads injected between inserts) over 14 arrival patterns; exact sorted multiset as reference; rank error of quantile/cdf against c*W+2/n and centroid count against delta+3",
          "The statement quantifies over insertion order and over which inserts are compacted together; the simulator owns both (arrival pattern, backlog size, read positions) and checks the exact-multiset oracle at check points and at the end.",
-         "n <= 2*10^4 (quick) / 10^5 (thorough); interval reading of the empirical CDF with eps = 8 ulp * magnitude * (total weight / smallest weight); c = 1 only for iid smooth patterns."),
+         "n <= 2*10^4 (quick) / 10^5 (thorough); interval reading of the empirical CDF with eps = 8 ulp * magnitude * (total weight / smallest weight); c = 1 only for iid smooth patterns; at exact ties (unit weights, small integer values) cdf at the data values is held to the literal 3 W + 2/n."),
  "C15": ("exploration", "seeded simulation of compaction schedules (weighted and unweighted inserts, zero weights, reads) with shape invariants of quantile/cdf checked on a 250-point grid at check points",
          "Invariant checking at read points of simulated histories: monotonicity, range, end points, repeatability, cdf(quantile(q)) consistency split into generic (tight) and lattice (loose) inputs, empty digest; the compaction schedule decides the centroid layout the invariants are evaluated on.",
          "Tolerances as granted by the statement (8 ulp * kappa); consistency check skipped when kappa makes it meaningless (counted by a probe)."),
